@@ -184,6 +184,7 @@ def run(chk):
         ok = f is not None and any(isinstance(n, ast.Call) and dotted(n.func) == "time.perf_counter" for n in walk_body(f)) and not any(
             isinstance(n, ast.Call) and dotted(n.func) in ("time.time", "time.monotonic") for n in walk_body(f))
         chk.ob("O4.2", f"{nm} uses the same monotonic clock (perf_counter)", ok, f if f is not None else ch, "")
+    trace_hook_table(chk, "O4.2", repo)
     at = arg_named("absolute_time")
     ok = False
     if at is not None and isinstance(at, ast.Name) and at.id in defs:
@@ -233,8 +234,9 @@ def run(chk):
     breaks = [g.node_of(b) for b in ast.walk(L) if isinstance(b, ast.Break) and not any(isinstance(a, ast.If) and "cancel.is_set" in u(a.test) for a in source.ancestors(b))]
     ok = bool(wx) and all(Lh.id not in g.reachable([w], avoid=[an], edge_ok=g.normal_edge) for w in wx)
     chk.ob("O4.4", "no path from the finished request to the next iteration bypasses sampler.add", ok, addc, "")
-    ok = all(g.dominated_by_nodes(b, [an]) for b in breaks)
-    chk.ob("O4.4", "completion break only after the sample was recorded", ok, addc, f"{len(breaks)} break(s)")
+    # a break leaves a request unsampled only if it lies between the request and sampler.add (a break before the request was issued loses nothing)
+    lost = [b for b in breaks if any(g.path_exists(w, b, avoid=[an, Lh], edge_ok=g.normal_edge) for w in wx)]
+    chk.ob("O4.4", "no break between the finished request and its sample", bool(wx) and not lost, addc, f"{len(breaks)} break(s) in the loop, {len(lost)} between request and sampler.add")
     ok = g.dominated_by_nodes(an, wx) if wx else False
     chk.ob("O4.4", "sample recorded after the request context closed", ok, addc, "")
 
@@ -260,9 +262,53 @@ def run(chk):
         got = flow.get(src_expr)
         chk.ob("O4.5", f"{src_expr} -> Sample.{want}", got == want, addc, f"lands in Sample.{got}", key=f"{_D}:flow:{src_expr}->{want}")
     ts = b2.get("task_start")
+    from rules.C01 import executor_wiring
+
+    executor_wiring(chk, "O4.5", drv)
     chk.ob("O4.5", "task_start := sampler start timestamp", ts is not None and u(ts) == "self.start_timestamp", ctor[0], "")
 
     check_execute_single(chk, drv, "O4.6", runs)
+
+
+def trace_hook_table(chk, rid, repo):
+    from sa.classes import is_logging_stmt
+
+    """The aiohttp trace signals that start / stop the service-time clock (shared with C18): the start callback is registered for request start only; the stop
+    callback for every response chunk (so the LAST chunk counts), for request end and for request exception; no request-side signal stops the clock."""
+    fac = repo.module("esrally/client/factory.py")
+    chk.use(fac)
+    f = fac.methods(fac.cls("EsClientFactory")).get("create_async")
+    if f is None:
+        raise AnchorMissing("EsClientFactory.create_async")
+    tc = [n for n in walk_body(f) if isinstance(n, ast.Assign) and isinstance(n.value, ast.Call) and last_attr(n.value.func) == "TraceConfig" and isinstance(n.targets[0], ast.Name)]
+    if not tc:
+        raise AnchorMissing("aiohttp.TraceConfig() in create_async")
+    tv = tc[0].targets[0].id
+    role = {}
+    for d in walk_body(f):
+        if isinstance(d, (ast.AsyncFunctionDef, ast.FunctionDef)):
+            called = {last_attr(c.func) for c in ast.walk(d) if isinstance(c, ast.Call)}
+            # a callback has a role only if its body is the single unconditional call (docstring / logging aside)
+            body_ = [st_ for st_ in d.body if not (isinstance(st_, ast.Expr) and isinstance(st_.value, ast.Constant)) and not is_logging_stmt(st_)]
+            plain = len(body_) == 1 and isinstance(body_[0], ast.Expr) and isinstance(body_[0].value, (ast.Call, ast.Await))
+            if "on_request_start" in called and "on_request_end" not in called:
+                role[d.name] = "start" if plain else "conditional start"
+            elif "on_request_end" in called and "on_request_start" not in called:
+                role[d.name] = "stop" if plain else "conditional stop"
+    table = {}
+    for n in walk_body(f):
+        if isinstance(n, ast.Call) and last_attr(n.func) == "append" and isinstance(n.func.value, ast.Attribute) and isinstance(n.func.value.value, ast.Name) and n.func.value.value.id == tv and n.args:
+            table.setdefault(n.func.value.attr, []).append(role.get(u(n.args[0]), u(n.args[0])))
+    want = {"on_request_start": ["start"], "on_response_chunk_received": ["stop"], "on_request_end": ["stop"], "on_request_exception": ["stop"]}
+    for sig in sorted(set(want) | set(table)):
+        got = table.get(sig, [])
+        ok = (got == want[sig]) if sig in want else not any(r.endswith(("start", "stop")) for r in got)
+        chk.ob(rid, f"trace signal {sig} -> {want.get(sig, ['(nothing)'])[0]} the service-time clock", ok, tc[0], f"registered: {got or 'nothing'}" + ("" if ok else
+               (" — the clock stops before the response body has arrived" if sig not in want and "stop" in got else " — the span no longer ends with the last response chunk / an error")),
+               key=f"esrally/client/factory.py:EsClientFactory.create_async:trace:{sig}")
+    used = [n for n in walk_body(f) if isinstance(n, ast.keyword) and n.arg == "trace_config" and u(n.value) == tv]
+    anyuse = any(isinstance(n, ast.Name) and n.id == tv and isinstance(n.ctx, ast.Load) and not isinstance(source.parent(n), ast.Attribute) for n in walk_body(f))
+    chk.ob(rid, "the trace configuration is handed to the client", bool(used) or anyuse, tc[0], "")
 
 
 def check_execute_single(chk, drv, RID, runs=()):
